@@ -273,11 +273,12 @@ class Event:
 
 
 class Evaluation:
-    def __init__(self, fn, structs, k=2, ghosts=None, follow_panics=False):
+    def __init__(self, fn, structs, k=2, ghosts=None, follow_panics=False, watch=None):
         self.fn = fn
         self.structs = structs
         self.k = k
         self.ghosts = ghosts or {}  # name -> compiled regex on callee text
+        self.watch = set(watch or [])  # source variable names whose assignments become events
         self.events = []
         self.returns = []  # (node, reach, env)
         self.node_reach = {}
@@ -778,6 +779,13 @@ class Evaluation:
                     dest, rv = st[1], st[2]
                     dty = fn.types.get(dest.local, "") if not dest.projs else ""
                     val = self.eval_rvalue(env, rv, dty, node)
+                    if self.watch and not dest.projs:
+                        for nm in self.local_names(dest.local):
+                            if nm in self.watch:
+                                old, _ = self.read_place(env, dest)
+                                self.events.append(Event(node, bb, layer, f"assign({nm})", f"assign({nm})",
+                                                         f"assign({nm})@bb{bb}", [val, old], [dty, dty], reach,
+                                                         dict(env), st[3], ""))
                     self.write_place(env, dest, val)
                 elif st[0] == "setdiscr":
                     if st[1] is not None:
